@@ -207,7 +207,7 @@ func RunOps(path string, w *bufio.Writer, g *Gen) error {
 			vsegs := e.DumpSegs(p)
 			er := e.Encode(p)
 			if er.Panic != "" {
-				fmt.Fprintf(w, "X %d %d encode-panic %s %s\n", e.Pi, e.Mi, vstr, strconv.Quote(er.Panic))
+				fmt.Fprintf(w, "X %d %d encode-panic %s %s\n", e.Pi, e.Mi, vsegs, strconv.Quote(er.Panic)) // value with its wire segmentation
 				continue
 			}
 			b := er.Wire.Join()
